@@ -62,9 +62,13 @@ def mk_history(rng, T, served):
         elif r < 0.55:
             ops.append(['enter', sid, rng.choice(ROOMS + ['gen%d' % T]), ns])
         elif r < 0.6:
-            ops.append(['leave', sid, rng.choice(ROOMS), ns])
+            # (now and then the application takes the client out of its own
+            # personal room, or closes that room)
+            ops.append(['leave', sid, rng.choice(ROOMS) if rng.random() < 0.7
+                        else sid, ns])
         elif r < 0.64:
-            ops.append(['close_room', rng.choice(ROOMS), ns])
+            ops.append(['close_room', rng.choice(ROOMS) if rng.random() < 0.7
+                        else sid, ns])
         elif r < 0.76:
             ops.append(['emit', t(), sid, None, ns,
                         rng.choice(['fn', 'fn', None])])
